@@ -1538,6 +1538,44 @@ def _k_init():
             ('kmodel_kernelValidated', '', 'Bool', 'true', 'KernelModel.__init__: utils.validate_kernel_shape(kernel_shape, model=model)')]
 
 
+def _k_shared_state():
+    """kernel_model.py: one model object serves every block of a `process()` call, from every worker thread.  The machine's
+    `compute` step (Model/Sched.lean) is a function of the block alone, which it is when no method of KernelModel / RefSpaceModel /
+    SrcSpaceModel other than __init__ stores into the object, its class, a global or a non-local: the list of such stores found in
+    the source text (empty on the code the proofs were written against)"""
+    import inspect
+    from homonim import kernel_model as km
+    from homonim.fuse import RasterFuse
+    writes = []
+    for cls in (km.KernelModel, km.RefSpaceModel, km.SrcSpaceModel):
+        for name, member in sorted(cls.__dict__.items()):
+            f = member.__func__ if isinstance(member, (staticmethod, classmethod)) else member
+            fs = [g for g in (f.fget, f.fset, f.fdel) if g] if isinstance(f, property) else [f]
+            for g in fs:
+                if not inspect.isfunction(g) or name == '__init__':
+                    continue
+                tree = fn_body(src_of(g))
+                args = [a.arg for a in tree.args.args[:1]]
+                for n in ast.walk(tree):
+                    if isinstance(n, (ast.Global, ast.Nonlocal)):
+                        writes.append(f'{cls.__name__}.{name}: {U(n)}')
+                    if isinstance(n, (ast.Attribute, ast.Subscript)) and isinstance(n.ctx, (ast.Store, ast.Del)):
+                        base = n
+                        while isinstance(base, (ast.Attribute, ast.Subscript)):
+                            base = base.value
+                        if isinstance(base, ast.Name) and (base.id in args and base.id in ('self', 'cls') or
+                                                           base.id in ('KernelModel', 'RefSpaceModel', 'SrcSpaceModel')):
+                            writes.append(f'{cls.__name__}.{name}: {U(n)}')
+                    if isinstance(n, ast.Call) and U(n.func) in ('setattr', 'object.__setattr__') and n.args and U(n.args[0]) in ('self', 'cls'):
+                        writes.append(f'{cls.__name__}.{name}: {U(n)[:60]}')
+    # and the one object is what every block gets: _process_block(block_pair, model, ...) calls fit and apply on its argument
+    pb = [U(x) for x in _stmts(fn_body(src_of(RasterFuse._process_block)))]
+    if 'param_ra = model.fit(src_ra, ref_ra)' not in pb or 'corr_ra = model.apply(src_ra, param_ra)' not in pb:
+        raise TranslationError(f'_process_block: fit / apply calls {pb[:4]}')
+    return [('modelState_writes', '', 'List String', '[' + ', '.join('"' + w.replace('"', "'") + '"' for w in writes) + ']',
+             'stores into the shared model object (or its class, a global, a non-local) by methods other than __init__')]
+
+
 def _f_tags():
     """fuse.py / stats.py: which FUSE_* tags process() writes into both outputs (the three fixed ones of _set_metadata plus one per
     configuration key handed to _out_files), which of them ParamStats reads, and that the threshold read back is made a number"""
@@ -1605,7 +1643,7 @@ def _f_tags():
 SECTIONS = [_k_fit_gain, _k_fit_gain_offset, _k_r2, _k_blk, _s_cmp, _s_cmp_mean, _s_stats, _g_blocks, _g_resolve, _g_auto,
             _g_overlap, _g_expand, _g_round, _g_covers, _g_pindex, _s_cmp_block, _m_cover, _a_bounded, _p_r2band, _f_prog, _f_outfiles, _c_invoke, _f_process, _k_resampling, _a_convert, _a_write, _a_read,
             _g_orient, _m_naneq, _f_accumulate, _c_loops, _f_profiles, _c_nodata, _b_match, _f_locks,
-            _u_kernel, _u_threads, _u_param_image, _u_names, _u_nonalpha, _b_info, _c_defaults, _f_tags, _s_window, _k_init]
+            _u_kernel, _u_threads, _u_param_image, _u_names, _u_nonalpha, _b_info, _c_defaults, _f_tags, _s_window, _k_init, _k_shared_state]
 # definition-name prefixes each extractor is responsible for (used to attribute a failed extraction to properties)
 PROVIDES = {'_k_fit_gain': ('fitGain_',), '_k_fit_gain_offset': ('fitGainOffset_',), '_k_r2': ('r2_',),
             '_k_blk': ('blk_', 'blockNorm_', 'applyParams'), '_s_cmp': ('cmp_',), '_s_cmp_mean': ('cmp_meanRow',),
@@ -1616,12 +1654,12 @@ PROVIDES = {'_k_fit_gain': ('fitGain_',), '_k_fit_gain_offset': ('fitGainOffset_
             '_a_read': ('read_',), '_g_orient': ('orient_',), '_m_naneq': ('mask_',), '_f_accumulate': ('accumulate_',),
             '_c_loops': ('cli_fuseLoop', 'cli_compareLoop'), '_f_profiles': ('profile_',), '_c_nodata': ('cli_nodata',), '_b_match': ('match_',), '_f_locks': ('locks_',),
             '_u_kernel': ('kernel_',), '_u_threads': ('threads_',), '_u_param_image': ('paramImage_',), '_u_names': ('names_',),
-            '_u_nonalpha': ('bands_',), '_b_info': ('bandInfo_',), '_c_defaults': ('cli_defaults', 'cli_flagDefaults'), '_f_tags': ('tags_',), '_s_window': ('statsWindow_',), '_k_init': ('kmodel_',)}
+            '_u_nonalpha': ('bands_',), '_b_info': ('bandInfo_',), '_c_defaults': ('cli_defaults', 'cli_flagDefaults'), '_f_tags': ('tags_',), '_s_window': ('statsWindow_',), '_k_init': ('kmodel_',), '_k_shared_state': ('modelState_',)}
 # which generated definitions (by name prefix) bear on which property's check
 SERVES = {
     'C01': ('fitGain', 'r2_', 'blk_', 'blockNorm_', 'kernel_'), 'C02': ('fitGain', 'r2_', 'blk_', 'blockNorm_', 'applyParams', 'resamplingIsDown', 'kmodel_'),
     'C07': ('fitGain', 'r2_', 'blk_', 'blockNorm_', 'applyParams', 'mask_'), 'C14': ('applyParams', 'paramIndex', 'fitGain', 'r2_', 'profile_metaTags', 'paramImage_', 'tags_'),
-    'C04': ('prog', 'fanOut', 'accumulate_', 'locks_', 'threads_'), 'C09': ('prog', 'outFilesEvents', 'fanOut', 'statsWindow_'), 'C10': ('outFilesEvents', 'profile_', 'cli_fuseLoop', 'names_'), 'C11': ('cmp_', 'cmpPx_', 'resamplingIsDown', 'accumulate_compare', 'mask_'), 'C12': ('stats_', 'accumulate_stats', 'paramImage_', 'tags_', 'statsWindow_'), 'C17': ('cover_',), 'C20': ('bounded_', 'writeSteps', 'read_', 'convert_', 'mask_'), 'C13': ('convert_', 'writeSteps', 'profile_'), 'C08': ('read_', 'mask_', 'bands_'),
+    'C04': ('prog', 'fanOut', 'accumulate_', 'locks_', 'threads_', 'modelState_'), 'C09': ('prog', 'outFilesEvents', 'fanOut', 'statsWindow_'), 'C10': ('outFilesEvents', 'profile_', 'cli_fuseLoop', 'names_'), 'C11': ('cmp_', 'cmpPx_', 'resamplingIsDown', 'accumulate_compare', 'mask_'), 'C12': ('stats_', 'accumulate_stats', 'paramImage_', 'tags_', 'statsWindow_'), 'C17': ('cover_',), 'C20': ('bounded_', 'writeSteps', 'read_', 'convert_', 'mask_'), 'C13': ('convert_', 'writeSteps', 'profile_'), 'C08': ('read_', 'mask_', 'bands_'),
     'C03': ('writeSteps', 'expandWindow_', 'kmodel_'), 'C05': ('overlapForKernel', 'blocks_', 'resamplingIsDown', 'fitGain', 'r2_', 'kernel_'),
     'C06': ('blocks_', 'expandWindow_', 'roundBounds_', 'autoBlock_', 'orient_'), 'C16': ('covers_axis', 'orient_'), 'C18': ('resolveAutoIsRef', 'orient_', 'cli_fuseLoop', 'tags_'), 'C19': ('cli_', 'names_', 'threads_', 'kernel_', 'kmodel_'), 'C15': ('match_', 'bands_', 'bandInfo_'),
 }
